@@ -26,6 +26,7 @@ RULE = (
     "limits, phases, voltages, ids, max/min/allowable pilots, continuity, per-station accessors, "
     "remaining_amp_periods) equal the spec/model; (3) the vandal run's matrices, energies, event "
     "history, network description and its own later observations equal the pure run's. "
+    "In a third of the cases the queue also holds explicit UnplugEvents ahead of a session's departure (the simulator's own unplug event then finds the station empty or re-occupied and is an event of its period all the same). "
     "Non-trivial = max_recompute >= 2 with an event-free gap of that length, or a session becomes "
     "satisfied mid-stay."
 )
@@ -179,7 +180,7 @@ def check_observations(spec, m, log, R, overlay, rec, labels):
         want = {}
         ambiguous = set()
         for sid, s in m.sessions.items():
-            if s["arrival"] <= t < s["departure"]:
+            if s["arrival"] <= t < m.leaves(sid):
                 delivered = m.ledger(R, sid, t)
                 rem = s["energy"] - delivered
                 if abs(rem - THRESH) <= 1e-6:
@@ -291,18 +292,53 @@ def prop(spec, rec):
             labels.add("recompute_gap")
     if any(o["active_arg"] for o in pure_log):
         labels.add("has_active_sessions")
+    if spec.get("early_unplugs"):
+        labels.add("explicit_early_unplug")
+        if any(m.occupant(m.sessions[sid]["station"], m.sessions[sid]["departure"] - 1) not in (None, sid) for sid in m.early):
+            labels.add("stale_unplug_finds_other_session")
     rec.case(spec, labels, bool(labels & {"recompute_gap", "session_satisfied_mid_stay"}))
+
+
+from hypothesis import strategies as st  # noqa: E402
+
+
+@st.composite
+def cases(draw):
+    """Scenario generator of C01 plus, in a third of the cases, explicit UnplugEvents ahead of a
+    session's own departure (a driver leaving early): the simulator's own unplug event at
+    ev.departure then finds the station empty - or re-occupied by a session generated into the
+    gap - and is an event of its period all the same."""
+    spec = draw(sc.scenarios(energies=(0.02, 0.2, 1.0, 3.0, 12.0, 60.0)))
+    if draw(st.integers(0, 2)) == 0:
+        early = []
+        extra = []
+        for s in spec["sessions"]:
+            if s["departure"] - s["arrival"] >= 2 and draw(st.booleans()):
+                t = draw(st.integers(s["arrival"] + 1, s["departure"] - 1))
+                early.append({"session": s["id"], "t": t})
+                if draw(st.booleans()):
+                    # somebody else takes the space before the original departure time
+                    a = draw(st.integers(t, s["departure"] - 1))
+                    d = draw(st.integers(a + 1, s["departure"]))
+                    x = dict(s, id=s["id"] + "-gap", arrival=a, departure=d, est_departure=None)
+                    extra.append(x)
+        if early:
+            spec["early_unplugs"] = early
+            spec["sessions"] = spec["sessions"] + extra
+            n = len(spec["sessions"]) + len(spec["recomputes"]) + len(early)
+            spec["event_order"] = list(draw(st.permutations(range(n))))
+    return spec
 
 
 def subchecks(tier):
     return [
         Given(
             "invocation_and_isolation",
-            sc.scenarios(energies=(0.02, 0.2, 1.0, 3.0, 12.0, 60.0)),
+            cases(),
             prop,
             quick=300,
             thorough=20000,
-            floors={"recompute_gap": 0.033, "session_satisfied_mid_stay": 0.103, "last_applied_nonempty": 0.3, "has_active_sessions": 0.454, "mr_None": 0.1},
+            floors={"recompute_gap": 0.033, "session_satisfied_mid_stay": 0.103, "last_applied_nonempty": 0.3, "has_active_sessions": 0.454, "mr_None": 0.1, "explicit_early_unplug": 0.06},
         )
     ]
 
